@@ -370,7 +370,8 @@ fn blk_one(cx: &mut Ctx, sel: u8, rng: &mut Rng) {
             let first_szx = if rng.chance(1, 2) { Some(rng.below(8) as u8) } else { None };
             let reduce_at = if rng.chance(1, 4) { Some((1 + rng.below(3) as usize, rng.below(3) as u8)) } else { None };
             let mut sess = Session::new(m, 60000);
-            blk::run_download(cx, &Download { shape: &shape, ep: rng.below(3) as u8, m, body, resp_opts, first_szx, reduce_at }, &mut sess, sel & 0x80 != 0);
+            let followup_toks: Vec<Vec<u8>> = if rng.chance(1, 2) { vec![] } else { (0..1 + rng.below(3)).map(|_| { let k = rng.below(9) as usize; rng.bytes(k) }).collect() };
+            blk::run_download(cx, &Download { shape: &shape, ep: rng.below(3) as u8, m, body, resp_opts, first_szx, reduce_at, followup_toks }, &mut sess, sel & 0x80 != 0);
         }
         3 => {
             let shape = f_shape(rng, &shapes);
@@ -409,8 +410,13 @@ fn blk_one(cx: &mut Ctx, sel: u8, rng: &mut Rng) {
             let lb = 20 + rng.below(60) as usize;
             let (ba, bb) = (rng.bytes(la), rng.bytes(lb));
             let s1 = if rng.chance(1, 2) { blk::download_script(&a, 1, &ba, 0, 100) } else { blk::upload_script(&a, 1, &ba, 0, 100) };
-            let s2 = if rng.chance(1, 2) { blk::download_script(&b, epb, &bb, 0, 200) } else { blk::upload_script(&b, epb, &bb, 0, 200) };
-            blk::run_interleavings(cx, &s1, &s2, 64);
+            let mb2 = if rng.chance(1, 3) { 100 } else { 200 };
+            let s2 = if rng.chance(1, 2) { blk::download_script(&b, epb, &bb, 0, mb2) } else { blk::upload_script(&b, epb, &bb, 0, mb2) };
+            if rng.chance(1, 2) {
+                blk::run_interleavings(cx, &s1, &s2, 64);
+            } else {
+                blk::run_pipelined(cx, &s1, &s2, 64, rng.chance(1, 2));
+            }
         }
     }
 }
